@@ -812,6 +812,9 @@ func (l *LineWrapper) WrapParagraph(config WrapConfig, maxWidth int, paragraph [
 			_, firstRun, hasFirst := runs.Next()
 			_, _, hasSecond := runs.Peek()
 			if hasFirst && !hasSecond {
+				// The glyphs are shared with the caller's run: an earlier call may have edited them
+				// (trailing space, start letter spacing), so the advance is taken from the glyphs.
+				firstRun.RecomputeAdvance()
 				if firstRun.Advance.Ceil() <= maxWidth {
 					return l.scratch.singleRunParagraph(firstRun), 0
 				}
@@ -851,6 +854,11 @@ func (l *LineWrapper) fillUntil(runs RunIterator, option breakOption) {
 			l.mapper.mapRun(currRunIndex, run)
 			isFirstInLine := l.scratch.candidateLen() == 0
 			run = cutRun(run, l.mapper.mapping, l.lineStartRune, run.Runes.Count+run.Runes.Offset, isFirstInLine)
+		} else {
+			// The run goes on the line whole, but its glyphs are shared with the caller's run and
+			// may have been edited since it was shaped (start letter spacing of a candidate that
+			// was tried before, trailing space of an earlier call): take the advance from the glyphs.
+			run.RecomputeAdvance()
 		}
 		// While the run being processed doesn't contain the current line breaking
 		// candidate, just append it to the candidate line.
